@@ -56,7 +56,7 @@ func init() {
 		Run: run,
 		Floors: func(t string) map[string]int64 {
 			m := map[string]int64{"cfg.overlapping": 200, "cfg.b_inside_a": 100, "cfg.b_inside_hole_of_a": 100, "cfg.a_inside_b": 100, "cfg.disjoint_bbox_overlap": 100,
-				"cfg.bbox_disjoint_both_axes": 100, "cfg.bbox_disjoint_one_axis": 100, "cfg.box_corners_inside_concave": 100, "cfg.tiny_next_to_huge": 100, "cfg.empty_operand": 100, "cfg.near_coincident": 150, "scale.1e-13..1e-10": 150, "scale.1e154..1e160": 150, "offset.1e5_sizes": 150, "offset.1e8_sizes": 150, "scale.1e-6..1e15": 150, "points.judged": 100000, "area.identities_checked": 1000, "area.method_compared": 1000, "result.empty_correct": 500, "kind.nested": 50, "kind.interlocked": 50, "presentation.rings_shuffled_into_one_polygon": 300, "huge_box.cases": 2000, "huge_box.box_cuts_through_A": 1000, "huge_box.as_polygon": 500}
+				"cfg.bbox_disjoint_both_axes": 100, "cfg.bbox_disjoint_one_axis": 100, "cfg.box_corners_inside_concave": 100, "cfg.box_crossed_by_an_inlet_off_its_centre": 40, "cfg.tiny_next_to_huge": 100, "cfg.empty_operand": 100, "cfg.near_coincident": 150, "scale.1e-13..1e-10": 150, "scale.1e154..1e160": 150, "offset.1e5_sizes": 150, "offset.1e8_sizes": 150, "scale.1e-6..1e15": 150, "points.judged": 100000, "area.identities_checked": 1000, "area.method_compared": 1000, "result.empty_correct": 500, "kind.nested": 50, "kind.interlocked": 50, "presentation.rings_shuffled_into_one_polygon": 300, "huge_box.cases": 2000, "huge_box.box_cuts_through_A": 1000, "huge_box.as_polygon": 500}
 			for _, a := range []string{"Polygon", "MultiPolygon", "*Bounds"} {
 				for _, b := range []string{"Polygon", "MultiPolygon", "*Bounds"} {
 					m["pair."+a+"x"+b] = 40
@@ -516,7 +516,23 @@ func run(c *core.Ctx, idx int) {
 		var polys []geom.Polygon
 		var bx geom.Bounds
 		w := ra
-		switch r.Intn(3) {
+		switch r.Intn(4) {
+		case 3: // a thin inlet cut from the top edge down THROUGH the box, off its centre line
+			nx := ox + w*r.Range(-0.5, 0.5) // the inlet's axis
+			nw := w * r.Range(0.01, 0.05)   // its half-width at the top
+			top := oy + w
+			bx = geom.Bounds{Min: geom.Point{Y: oy - w*r.Range(0.1, 0.5)}, Max: geom.Point{Y: oy + w*r.Range(0.1, 0.5)}}
+			tipY := bx.Min.Y - w*r.Range(0.05, 0.3)
+			// the box reaches from nx - a to nx + b with a/(a+b) well away from 1/2
+			span := w * r.Range(0.2, 0.45)
+			f := r.Range(0.1, 0.35)
+			if r.Bool() {
+				f = 1 - f
+			}
+			bx.Min.X, bx.Max.X = nx-f*span, nx+(1-f)*span
+			ring := geom.Path{{X: ox - w, Y: oy - w}, {X: ox + w, Y: oy - w}, {X: ox + w, Y: top}, {X: nx + nw, Y: top}, {X: nx + r.Range(-0.3, 0.3)*nw, Y: tipY}, {X: nx - nw, Y: top}, {X: ox - w, Y: top}}
+			polys = []geom.Polygon{{gen.RespellRandom(r, ring)}}
+			c.Count("cfg.box_crossed_by_an_inlet_off_its_centre")
 		case 0: // two teeth of an upright comb
 			teeth := r.IntRange(2, 5)
 			tw := 2 * w / float64(2*teeth-1)
